@@ -168,7 +168,9 @@ def run(prog, rep, tier='quick'):
         v, itp = C.run_function(prog, mod, fname, [C.data(True, phase=False), Const(3)], {})
         ls = [e for e in itp.events if e[0] == 'lstsq']
         for e in ls:
-            extra = {k: val for k, val in e[5].items() if not (isinstance(val, Const) and val.v is None)
+            # None and a negative rcond both mean "machine precision"
+            extra = {k: val for k, val in e[5].items() if not (isinstance(val, Const) and (val.v is None or (
+                     isinstance(val.v, (int, float)) and not isinstance(val.v, bool) and val.v < 0)))
                      and k not in ('lapack_driver', 'overwrite_a', 'overwrite_b', 'check_finite')}
             if extra:
                 rep.violation('exact-solve', f.qname, normalise(e[1]), 'the least-squares solve is given %s: singular values below the '
